@@ -921,9 +921,8 @@ def outRvalues : Nat → M Unit
     outRvalue
     outRvalues n
 
-/-- `IoParser.printf` -/
-def printfStmt : M Unit := do
-  skipToken
+/-- `IoParser.printf` after the keyword -/
+def printfRest : M Unit := do
   let fmt ← currentStr
   if fmt.length == 0 then tokenError "Expected format specifier, got " ""
   skipToken
@@ -932,6 +931,11 @@ def printfStmt : M Unit := do
   | some fields =>
     outRvalues (Out.countPositional fields)
     emit (.out .printf (.lit (.str fmt)))
+
+/-- `IoParser.printf` -/
+def printfStmt : M Unit := do
+  skipToken
+  printfRest
 
 /-- `_assignment` -/
 def assignment : M Unit := do
@@ -1055,6 +1059,13 @@ def operandName : M Unit := do
   else if (← getSt).inMatrix then
     triggerError "Use of \"set\" not allowed in this context. Try \"stage\"."
   else tokenError "Needed a device, location, or group, got \"" "\"."
+
+/-- the optional `group` / `location` in front of an operand -/
+def operandKind : M Operand := do
+  match (← getSt).cur.ty with
+  | .group => do skipToken; pure Operand.group
+  | .location => do skipToken; pure Operand.location
+  | _ => pure Operand.light
 
 /-- `_zone_range` / `_set_zones` -/
 def zoneRange : M Unit := do
@@ -1338,6 +1349,12 @@ def closeLoop : M Unit := do
   emit .endLoop
   exitLoop
 
+/-- `LoopParser.repeat` after the keyword -/
+def repeatRest (commandSeq : M Unit) : M Unit := do
+  enterLoop
+  repeatBody commandSeq
+  closeLoop
+
 /-- `_routine_definition` between `enter_routine()` and the body -/
 def routineHead (name : String) (withParams : Bool) : M Unit := do
   emit (.routine name)
@@ -1381,6 +1398,14 @@ def definitionRest (name : String) (body : M Unit) : M Unit := do
     else if st.inRoutine then triggerError "Nested definition not allowed."
     else routinePart name (st.cur.ty == .with_) body
   else macroDefinition name
+
+/-- `_definition` after the keyword -/
+def definitionNamed (body : M Unit) : M Unit := do
+  let st ← getSt
+  if st.cur.ty != .name then tokenError "Expected name for definition, got: " ""
+  else
+    skipToken
+    definitionRest st.cur.str body
 
 mutual
   /-- `_command`: dispatch on the type of the current token -/
@@ -1461,20 +1486,14 @@ mutual
     | 0 => outOfFuel
     | f + 1 => do
       skipToken
-      enterLoop
-      repeatBody (commandSeq f)
-      closeLoop
+      repeatRest (commandSeq f)
 
   /-- `_definition` -/
   def definition : Nat → M Unit
     | 0 => outOfFuel
     | f + 1 => do
       skipToken
-      let st ← getSt
-      if st.cur.ty != .name then tokenError "Expected name for definition, got: " ""
-      else
-        skipToken
-        definitionRest st.cur.str (commandSeq f)
+      definitionNamed (commandSeq f)
 
   /-- `_action(op_code)` -/
   def action : Nat → OpC → M Unit
@@ -1512,29 +1531,24 @@ mutual
   def operand : Nat → M Unit
     | 0 => outOfFuel
     | f + 1 => do
-      let kind : Operand ← match (← getSt).cur.ty with
-        | .group => do skipToken; pure Operand.group
-        | .location => do skipToken; pure Operand.location
-        | _ => pure Operand.light
+      let kind ← operandKind
       operandName
       let st ← getSt
-      let kind ←
-        if st.cur.ty == .zone then do
-          zoneRange
-          pure Operand.mzLight
-        else if st.cur.ty == .begin_ || st.cur.ty == .column || st.cur.ty == .row then do
-          if kind != .light then tokenError "\"" " not allowed with groups or locations."
-          if st.opCode != .color then
-            triggerError ("Rows and columns not supported for " ++ st.opCode.lower)
+      if st.cur.ty == .zone then do
+        zoneRange
+        emit (.moveq (.operand .mzLight) (.reg .operand))
+      else if st.cur.ty == .begin_ || st.cur.ty == .column || st.cur.ty == .row then
+        if kind != .light then tokenError "\"" " not allowed with groups or locations."
+        else if st.opCode != .color then
+          triggerError ("Rows and columns not supported for " ++ st.opCode.lower)
+        else do
           -- `MatrixParser.matrix_spec`
           emit .matrix
-          let inline := st.cur.ty != .begin_
           matrixOperandList f
-          if inline then emit .color
+          (if st.cur.ty != .begin_ then emit .color else pure ())
           emit .endMatrix
-          pure Operand.matrixLight
-        else pure kind
-      emit (.moveq (.operand kind) (.reg .operand))
+          emit (.moveq (.operand .matrixLight) (.reg .operand))
+      else emit (.moveq (.operand kind) (.reg .operand))
 
   /-- `MatrixParser.operand_list` -/
   def matrixOperandList : Nat → M Unit
